@@ -42,6 +42,13 @@ CHECKS = {
                     'replaced by a symbolic value (every position) and on every truncation; the solver shows the step budget '
                     '(linear in input length for a fixed signature) is never exceeded and nothing but an Exception escapes.',
             'ref': 'DESIGN.md 2/C05', 'note': NOTE, 'technique': SYM + '; liveness turned into a step-budget assertion'},
+    'C20': {'text': 'Real protocol and real message constructor; descriptor numbers and the arrival schedule (descriptor vs. '
+                    'byte chunk at each step, within what a stream socket can produce) are solver variables; every message '
+                    'must resolve to its own descriptors and consume exactly its declared count; sender ordering and the '
+                    'per-call out-of-band list are asserted on a recording transport.',
+            'ref': 'DESIGN.md 2/C20', 'note': NOTE + ' The schedule variables are finite selectors: for them the solver contributes '
+                    'exhaustive coverage of the bounded schedule space rather than arithmetic.',
+            'technique': SYM + ' with a symbolic arrival schedule'},
 }
 _TODO = 'check not built yet in this revision (planned, see DESIGN.md section 2)'
 NOT_APPLICABLE = {('C%02d' % i): _TODO for i in range(1, 21)}
